@@ -1,4 +1,4 @@
-(* C20: the property on the latest-value cell abs_impl, by an invariant relating the observable
+(* C20: the property on the latest-value cell absZ_impl, by an invariant relating the observable
    history (trace) to the state, preserved by every operation *)
 From ZV Require Import Notified.Notified Notified.NotifiedBase Notified.NotifiedTokio.
 Open Scope Z_scope.
@@ -184,7 +184,7 @@ Definition InvH (tr : list ev) (hs : list (option N)) : Prop :=
   length (hvals tr) = length hs /\
   (forall h g, nth_error hs h = Some (Some g) -> nth_error (hvals tr) h = Some g).
 
-Definition Inv (tr : list ev) (st : state abs_impl) : Prop :=
+Definition Inv (tr : list ev) (st : state absZ_impl) : Prop :=
   InvC tr (ch st) (subs st) /\ InvH tr (handles st) /\ a_tx (ch st) = nlive (handles st) /\
   (notifier st = true -> onc st = AIdle).
 
@@ -426,9 +426,9 @@ Proof.
 Qed.
 
 (* ---------------------------------------------------------------- every operation keeps it *)
-Lemma Inv_init : Inv [] (init abs_impl).
+Lemma Inv_init : Inv [] (init absZ_impl).
 Proof.
-  unfold Inv, init. cbn [handles ch subs notifier onc abs_impl ch_new on_new].
+  unfold Inv, init. cbn [handles ch subs notifier onc absZ_impl ch_new on_new].
   split; [|split; [|split]]; auto.
   - unfold InvC. cbn. split; [auto|]. split; [|split; [|split]].
     + intros s. split; [discriminate|lia].
@@ -442,14 +442,14 @@ Proof.
 Qed.
 
 Lemma Inv_step tr st o : Inv tr st ->
-  Inv (tr ++ [(o, snd (step abs_impl st o))]) (fst (step abs_impl st o)).
+  Inv (tr ++ [(o, snd (step absZ_impl st o))]) (fst (step absZ_impl st o)).
 Proof.
   intros (HC & HH & HT & HN). destruct st as [hs c l nf oc]; cbn [handles ch subs notifier onc] in *.
   assert (Quiet : forall e, neutral e -> hneutral e -> Inv (tr ++ [e]) (St hs c l nf oc)).
   { intros e Ne He. split; [|split; [|split]]; auto.
     - now apply InvC_neutral.
     - now apply InvH_neutral. }
-  destruct o as [h x|h|h|s|s|h|h|x| |]; cbn [step handles ch subs notifier onc abs_impl
+  destruct o as [h x|h|h|s|s|h|h|x| |]; cbn [step handles ch subs notifier onc absZ_impl
       ch_set ch_sub ch_poll ch_droprx ch_clone ch_droptx on_notify on_drop on_poll fst snd].
   - (* Set_ *) destruct (nth_error hs h) as [[g|]|] eqn:Eh; try (apply Quiet; exact I).
     unfold a_set at 1 2. cbn [fst snd]. split; [|split; [|split]]; cbn [handles ch subs notifier onc]; auto.
@@ -501,7 +501,7 @@ Proof.
     + intros E. rewrite (HN E) in Ep. cbn in Ep. congruence.
 Qed.
 
-Theorem Inv_trace ops : Inv (trace abs_impl ops) (final abs_impl ops).
+Theorem Inv_trace ops : Inv (trace absZ_impl ops) (final absZ_impl ops).
 Proof.
   induction ops as [|o ops IH] using rev_ind.
   - exact Inv_init.
